@@ -480,17 +480,22 @@ def modifyHeap (w : World) (id : Nat) (f : Inner → Inner) : World :=
   | some i => { w with heap := w.heap.set id (f i) }
   | none => w
 
+/-- the dispatcher of connection `c` holds the connection data while the connection is open -/
+def noteConn (w : World) : Option Nat → World
+  | some c => if w.conns.contains c then w else { w with conns := c :: w.conns }
+  | none => w
+
 def serve (cfg : Cfg) (w : World) (r : Req) (acts : List Act) : World × String :=
-  let (w1, id) := acquire cfg w r
-  let w1 := match r.connData with
-    | some c => if w1.conns.contains c then w1 else { w1 with conns := c :: w1.conns }
-    | none => w1
-  match w1.heap.get id with
+  let a := acquire cfg w r                       -- AppInitService::call
+  let w1 := noteConn a.1 r.connData
+  match w1.heap.get a.2 with
   | none => (w1, "?")
   | some i0 =>
     let h := runHandler cfg i0 acts
-    let w2 := { w1 with heap := w1.heap.set id h.inner }
+    let w2 := { w1 with heap := w1.heap.set a.2 h.inner }
+    -- handler: `stash.insert(s, req.clone())` (a replaced handle is dropped)
     let w3 := (stashes acts).foldl (fun w s => cloneSlot w origSlot s) w2
+    -- the ServiceResponse (or the cancelled future) drops the request
     (dropSlot w3 origSlot, joinWith "|" h.dumps)
 
 def step (cfg : Cfg) (w : World) : Op → World × String
